@@ -141,6 +141,106 @@ func propC11(c *ctx) error {
 			}
 		}
 	}
+	// integer / integer pairs beyond float64's exact range: neighbouring integers that round to the same float64 are
+	// still different numbers — compared exactly, whatever kinds carry them, in variables, literals and arithmetic results
+	{
+		bigs := []uint64{1 << 53, 1<<53 + 1, 1<<53 + 2, 1<<62 - 1, 1 << 62, 1<<62 + 1, math.MaxInt64 - 2, math.MaxInt64 - 1, 9007199254740993, 1<<60 + 7} // (within int64: the engine computes in int64, as everywhere in this check)
+		mk := func(v uint64, kind string, neg bool) (val, string, bool) {
+			switch kind {
+			case "int64":
+				if v > math.MaxInt64 {
+					return val{}, "", false
+				}
+				if neg {
+					return vI64(-int64(v)), "", true
+				}
+				return vI64(int64(v)), "", true
+			case "int":
+				if v > math.MaxInt64 {
+					return val{}, "", false
+				}
+				if neg {
+					return vKind("int", -int64(v)), "", true
+				}
+				return vKind("int", int64(v)), "", true
+			case "uint64":
+				if neg {
+					return val{}, "", false
+				}
+				return val{v, J{"i": "uint64", "v": strconv.FormatUint(v, 10)}}, "", true
+			case "lit":
+				if v > math.MaxInt64 || neg {
+					return val{}, "", false
+				}
+				return val{}, strconv.FormatUint(v, 10), true
+			}
+			return val{}, "", false
+		}
+		for _, x := range bigs {
+			for _, y := range []uint64{x, x + 1, x - 1, x + 2} {
+				for _, neg := range []bool{false, true} {
+					for _, ka := range []string{"int64", "int", "uint64", "lit"} {
+						for _, kb := range []string{"int64", "uint64", "lit"} {
+							va, la, ok1 := mk(x, ka, neg)
+							vb, lb, ok2 := mk(y, kb, neg)
+							if !ok1 || !ok2 || y > math.MaxInt64 {
+								continue
+							}
+							ea, eb := "a", "b"
+							if la != "" {
+								ea = la
+							}
+							if lb != "" {
+								eb = lb
+							}
+							kvs := []kv{}
+							if la == "" {
+								kvs = append(kvs, kv{"a", va})
+							}
+							if lb == "" {
+								kvs = append(kvs, kv{"b", vb})
+							}
+							data := vMap(kvs...)
+							cmp := 0
+							switch {
+							case x < y:
+								cmp = -1
+							case x > y:
+								cmp = 1
+							}
+							if neg {
+								cmp = -cmp
+							}
+							want := map[string]bool{"<": cmp < 0, "==": cmp == 0, ">": cmp > 0, "<=": cmp <= 0, ">=": cmp >= 0, "!=": cmp != 0}
+							for _, op := range ops {
+								src := ea + " " + op + " " + eb
+								out := implEval(src, []any{data.g}, nil)
+								res.eval("bigint|"+src+jstr(data.j), true, J{"src": src})
+								res.S3Checked++
+								res.count("big_integer_pairs")
+								if w := fmt.Sprintf("bool:%v", want[op]); out.R != "ok" || out.V != w {
+									res.violate(J{"src": src, "env": data.j, "a": ka, "b": kb}, w, out.R+":"+out.V+" "+trunc(out.Err, 80),
+										"two integers beyond 2^53 are not compared exactly (equal-after-rounding is not equal)")
+								}
+								if c.d != nil && op == "==" {
+									m, err := c.d.ask(J{"op": "eval", "src": src, "data": data.j})
+									if err != nil {
+										return err
+									}
+									if sget(m, "r") != "unsupported" {
+										res.S2Compared++
+										if sget(m, "r") != out.R || (out.R == "ok" && sget(m, "v") != out.V) {
+											res.disagree(J{"src": src, "env": data.j}, J{"r": out.R, "v": out.V}, m, "eval")
+										}
+									}
+								}
+							}
+						}
+					}
+				}
+			}
+		}
+	}
 	// mixed integer / float pairs at the edge of float64's exact range: the integer is converted to float64 (C09),
 	// so the six comparisons must agree with each other and with float64(i) ⋈ f — for every kind carrying i
 	edgeInts := []int64{1<<53 - 1, 1 << 53, 1<<53 + 1, 1<<53 + 2, 1<<53 + 3, -(1 << 53) - 1, 1<<62 + 1, math.MaxInt64, math.MaxInt64 - 1, math.MinInt64, math.MinInt64 + 1, 1<<24 + 1, 1 << 24}
